@@ -16,7 +16,8 @@
    own transition, so all interleavings of the flag tests with Shutdown are
    present.  Purely local steps are merged with the preceding one
    (registration in srv.conns + wg.Add + go; delete from srv.conns + wg.Done).
-   Not modelled: restart after Shutdown (Server.init would replace channel and
+   A start that fails in serveUDP before the loop (SFailStart) leaves the server
+   unstarted.  Not modelled: restart after Shutdown (Server.init would replace channel and
    map), Hijack, MaxTCPQueries, handler-initiated Close. *)
 From Dns Require Export Base.Bytes.
 From Coq Require Export Arith.
@@ -78,7 +79,7 @@ Inductive label :=
 (* starters *)
 | StInvoke (i : nat) | StAtomic (i : nat) | StReturnErr (i : nat)
 (* serve loop *)
-| Notify | SCheck | SAcceptOk (c : nat) | SAcceptErr | SFatal | SErrCheck | SSpawn
+| Notify | SFailStart | SCheck | SAcceptOk (c : nat) | SAcceptErr | SFatal | SErrCheck | SSpawn
 | SSetDlL | SPacket (p : nat) | SReadErr | SWaitDone | SReturn (v : retv)
 (* workers *)
 | WCheck (c : nat) | WSetDl (c : nat) | Req (c : nat) | ReadErr (c : nat)
@@ -177,6 +178,19 @@ Definition step (s : state) (l : label) : option state :=
     end
   (* ---------------- serve loop *)
   | Notify => match serve s with SInit => Some (set_serve s SLoop) | _ => None end
+  | SFailStart =>
+    (* serveUDP with a generic PacketConn and a decorated Reader that lacks
+       ReadPacketConn: before its loop (and before NotifyStartedFunc) it takes
+       the lock, sets started = false and returns the error.  The server is
+       unstarted again (Server.init runs afresh on the next start).
+       Modelled while still started; see docs/C13.md for the corner in which
+       a Shutdown call slipped in between. *)
+    match serve s, md s, ph s with
+    | SInit, UDP, Running =>
+      Some (set_sts (set_serve (set_ph s Fresh) SNone)
+                    (map (fun x => match snd x with StServing => (fst x, StDone) | _ => x end) (sts s)))
+    | _, _, _ => None
+    end
   | SCheck =>
     match serve s with
     | SLoop =>
